@@ -304,15 +304,16 @@ def default_ncpus() -> int:
     try:
         match platform.system():
             case "Linux":
-                return len(os.sched_getaffinity(0)) - 1  # May raise AttributeError.
+                # May raise AttributeError.
+                return max(1, len(os.sched_getaffinity(0)) - 1)
             case "Darwin":
                 # May raise CalledProcessError.
                 out = subprocess.run(
                     ["sysctl", "-n", "hw.ncpu"], capture_output=True, check=True
                 )
-                return int(out.stdout.strip()) - 1
+                return max(1, int(out.stdout.strip()) - 1)
             case "Windows":
-                return int(os.environ["NUMBER_OF_PROCESSORS"]) - 1
+                return max(1, int(os.environ["NUMBER_OF_PROCESSORS"]) - 1)
             case _:
                 return 1
     except (AttributeError, subprocess.CalledProcessError, KeyError):
